@@ -153,6 +153,23 @@ func sigMutations(w *hx.World, rng *rand.Rand, n, q int, msgOf, altOf func(int) 
 			a.E = append(a.E, hx.Entry{0, outsider, msgOf(outsider)})
 			a.Bits = append(a.Bits, outsider)
 			add("outsider-fill", a)
+			// the bit-field padded with ids outside the configuration, nothing signed by them
+			a = good(base[:q-1])
+			a.Bits = append(a.Bits, outsider)
+			add("bits-pad-unknown", a)
+			if q >= 3 {
+				a = good(base[:q-2])
+				a.Bits = append(a.Bits, outsider, outsider+1)
+				add("bits-pad-unknown-two", a)
+			}
+			a = hx.AbsSig{T: "bls", E: []hx.Entry{}, Bits: []int{}}
+			for k := 0; k < q; k++ {
+				a.Bits = append(a.Bits, outsider+k)
+			}
+			add("bits-only-unknown", a)
+			a = good(base)
+			a.Bits = append(a.Bits, outsider+3)
+			add("bits-extra-unknown", a)
 			a = good(base)
 			i := rng.Intn(q)
 			a.E[i] = hx.Entry{0, base[i], altOf(base[i])}
